@@ -34,7 +34,7 @@ PKG = "yv-g05"
 
 TIERS = {
     "quick": dict(gen="Gen_ReadBuiltin_quick.cfg", laws="Gen_ReadBuiltin_lawsq.cfg", nrandom=40000, timeout=600),
-    "thorough": dict(gen="Gen_ReadBuiltin_thorough.cfg", laws="Gen_ReadBuiltin_laws.cfg", nrandom=400000, timeout=2400),
+    "thorough": dict(gen="Gen_ReadBuiltin_thorough.cfg", laws="Gen_ReadBuiltin_laws.cfg", nrandom=300000, timeout=2400),
 }
 
 SHARD = 60000       # records per Trace_ReadBuiltin run
